@@ -31,6 +31,21 @@ CHECKS = {
    note='Fake TLS (a handshake with unread clear-text bytes fails, as real TLS fed plaintext does); empty authzid may be shown as None, "" or the authcid; lenient base64 that merely continues the challenge is accepted.',
    technique='exhaustive enumeration of a finite scenario product on the real code with a metamorphic oracle and a gating table',
    design='5/C08'),
+ 'C10': dict(level='exploration', engine='E2-seq',
+   text='The real Client/LmtpClient run a full session against a scripted peer whose replies become readable only after the command that causes them was sent (a recv() with nothing owed raises OverRead) and carry unique texts.  Enumerated: 1..3 recipients x reply class per command (all server-consistent assignments with <= 2 non-success classes in quick, all in thorough) x 1..3 lines per reply x PIPELINING on/off x SMTP/LMTP x empty/non-empty data; every script in one burst, byte by byte, line by line and under every single cut, and under ALL segmentations for the all-success scripts (quick) / scripts with <= 1 non-success class (thorough).',
+   note='Reply texts are ASCII tags (reply parsing is C17); continuation canonicaliser validated differentially.',
+   technique='exhaustive enumeration of reply scripts x segmentations on the real client with a gating scripted peer',
+   design='5/C10'),
+ 'C16': dict(level='exploration', engine='E1-vloop',
+   text='Every recipient list of length 0..4 over 6-7 addresses (duplicates, mixed-case, missing/empty domains) x every chain (order and repetition) of <= 2 (quick) / <= 3 (thorough) policies out of 11 (both splits, 4 forwarding rule sets, 3 header policies, a policy returning its input, a policy returning input + copy) x Date/Message-Id present/absent, through the real Queue.enqueue on a recording storage; oracle: independent reference model of the policies (recipient multiset and grouping), same sender/body/original headers, aliasing probe on the written objects, Date/Message-Id/Received rules.',
+   note='Grouping is judged by the documented policy definitions; text of added headers and order of written envelopes are not judged; collapse of an original duplicate would be tolerated (never observed).',
+   technique='exhaustive enumeration of inputs x policy chains on the real Queue.enqueue against a reference model',
+   design='5/C16'),
+ 'C20': dict(level='exploration', engine='pure-enumeration',
+   text='Exhaustive within bounds: 1690 header blocks (1..3 fields, 5 value kinds incl. folded, 8-bit, 78-byte lines) x CRLF/LF x every body over {NUL,CR,LF,.,a,0xFF} up to length 2-5, plus "Name:value" forms; every byte string over {a,:,SP,CR,LF,0xFF} up to 6/7 bytes and sequences of long tokens for the never-raises claim; UTF-8 texts over {e-acute,a,CRLF} x 4 header sets x {base64, quoted-printable, none} for 7-bit conversion.  Oracle: independent header reader, byte-exact body, copy/pickle round trips, parse(flatten()) fixed point, stdlib parser as independent decoder.',
+   note='7-bit "same text" is judged modulo line-end convention; control characters that split header lines are outside the quantifier.',
+   technique='exhaustive input enumeration over small alphabets with round-trip and differential oracles',
+   design='5/C20'),
 }
 
 def main():
